@@ -80,6 +80,8 @@ def match_known(known: list[dict], prop: str, contract: str, fail: dict) -> dict
             continue
         if k.get("contract") and k["contract"] != contract:
             continue
+        if k.get("contract_contains") and k["contract_contains"] not in contract:
+            continue
         pat = k.get("obligation")
         if pat and not re.search(pat, fail.get("name", "")):
             continue
@@ -99,7 +101,8 @@ def run_check(prop: str, tier: str, only: str | None = None, jobs: int = 16, ver
     _load_contract_modules()
     from pyvc.contracts import REGISTRY
 
-    names = [n for n, c in REGISTRY.items() if prop in c.props and (only is None or re.search(only, n))]
+    names = [n for n, c in REGISTRY.items() if prop in c.props and tier in c.tiers and (only is None or re.search(only, n))]
+    skipped_tier = [n for n, c in REGISTRY.items() if prop in c.props and tier not in c.tiers]
     standin = None
     try:
         standin = importlib.import_module(f"checks.{prop}")
@@ -113,7 +116,7 @@ def run_check(prop: str, tier: str, only: str | None = None, jobs: int = 16, ver
         for n in names:
             k = max(1, REGISTRY[n].ground_chunks) if REGISTRY[n].ground is not None else max(1, REGISTRY[n].vc_chunks)
             jobs_list.extend((n, tier, (i, k)) for i in range(k))
-        jobs_list.sort(key=lambda j: 0 if REGISTRY[j[0]].ground is not None else 1)
+        jobs_list.sort(key=lambda j: (-REGISTRY[j[0]].weight, 0 if REGISTRY[j[0]].ground is not None else 1))
         with ctx.Pool(min(jobs, max(1, len(jobs_list)))) as pool:
             for d in pool.imap_unordered(_worker, jobs_list, chunksize=1):
                 results.append(d)
@@ -217,6 +220,7 @@ def run_check(prop: str, tier: str, only: str | None = None, jobs: int = 16, ver
             "discharged": n_dis,
             "obligations_failing_on_known_findings": n_known_obl,
             "checker_cmd": f"./vcheck {prop} --tier {tier}",
+            "contracts_only_in_thorough_tier": sorted(skipped_tier),
             "trusted_base": [TRUSTED[a] for a in sorted(assumptions, key=lambda x: int(x[1:])) if a in TRUSTED],
             "explanation": (explanation + " " if explanation else "")
             + f"{n_dis}/{n_obl_reported} verification conditions (plus {n_known_obl} that fail on recorded known findings and are listed under known_findings_hit) generated from the real source of {len(functions)} functions were discharged "
